@@ -5,10 +5,10 @@ import vlib, suites
 from fhgen import *
 
 RULE = ("decision matrix: {no module, module without sections, own index that cannot be built, FDE gap / before first / "
-        "after last FDE, no PE function-table entry, PE on aarch64} x {first, caller} x {x86_64, aarch64} x three presentations, plus frame-pointer chains of "
+        "after last FDE, no PE function-table entry, PE on aarch64, address outside __unwind_info} x {first, caller} x {x86_64, aarch64} x three presentations, plus frame-pointer chains of "
         "length 0..6 with varied spacing/alignment ending in the architecture's null marker or a null return address; "
         "distinct = (arch, reason, first/caller | chain length)")
-ASSUMPTIONS = ["stack reader is a pure partial function", "Mach-O reasons (outside __unwind_info) are added with C02's model"]
+ASSUMPTIONS = ["stack reader is a pure partial function", "stack reader returns values as given"]
 TRUSTED_BASE = ["modelled not verified: gimli"]
 
 def expect_fp(arch, sp, fp, lr, mem, mask=M64):
@@ -73,8 +73,13 @@ def generate(rng, tier):
         pe_uinfos = {0: dict(fpreg=None, fpoff=0, ops=[(4, ("alloc", 40))], chain=None, prolog=4)}
         module_pe(s, "MP", pe_lo, pe_lo + 0x10000, pe_lo, 0x140000000, [(0x1000, 0x1040, 0), (0x1100, 0x1180, 0)], pe_uinfos,
                   0x1000, bytes([0x90]) * 0x200)
+        # a Mach-O module: addresses its __unwind_info does not cover (before the first entry, after the sentinel)
+        import machotruth as mt
+        mprog = mt.make_program(rng, arch, 4)
+        mm_lo = 0x500000
+        mt.module_macho(s, "MM", mprog, mm_lo, 0x100000000, rng)
         s.add("new U")
-        for mid in ["MN", "MP"] + ["MB%d" % i for i in range(mi)] + ["MG%d" % j for j in range(3)]:
+        for mid in ["MN", "MP", "MM"] + ["MB%d" % i for i in range(mi)] + ["MG%d" % j for j in range(3)]:
             s.add("add U " + mid)
         probes = [("nomodule", a) for a in (0x5000, 0x50, 0xfffff, 0x101000, 0x9999999)]
         probes += [("nodata", 0x100000 + rng.below(0x1000)) for _ in range(3)]
@@ -87,6 +92,7 @@ def generate(rng, tier):
         probes += [(pe_reason, pe_lo + a) for a in (0x10, 0xfff, 0x1040, 0x10ff, 0x1180, 0x5000)]
         if arch == "a64":
             probes += [(pe_reason, pe_lo + 0x1010), (pe_reason, pe_lo + 0x1120)]
+        probes += [("macho-outside", mm_lo + a) for a in (0x10, 0x800, 0xfff, mprog["end"], mprog["end"] + 0x40)]
         for reason, a in probes:
             for first in (1, 0):
                 for _ in range(2):
@@ -172,7 +178,7 @@ def judge(script, impl):
         o = vlib.outcome(line); rg = vlib.regs_of(line)
         reason, first = m["reason"], m["first"]
         sp, fp, lr = m["sp"], m["fp"], m["lr"]
-        if (reason.startswith("gap") and first) or reason == "pe-noentry":
+        if (reason.startswith("gap") and first) or reason == "pe-noentry" or (reason == "macho-outside" and first):
             exp = expect_leaf(arch, sp, fp, lr, memS)
         else:
             exp = expect_fp(arch, sp, fp, lr, memS)
